@@ -727,6 +727,52 @@ def random_sentence(G, rng, productive, max_depth=8):
         return None
 
 
+def long_sentence(G, rng, productive, target=400, limit=4000):
+    """A sentence of roughly `target` tokens (None if the language has no long sentences): the sentential form is
+    expanded leftmost-first with an explicit stack, growing rules preferred until the target is reached, then the
+    shortest terminating rules.  Deep stacks and long inputs for the emitted parsers."""
+    by_lhs = {}
+    for lhs, rhs in G["rules"]:
+        if all(k == "t" or n in productive for k, n in rhs):
+            by_lhs.setdefault(lhs, []).append(rhs)
+    if G["start"] not in productive or G["start"] not in by_lhs:
+        return None
+    # shortest terminal length derivable from each nonterminal
+    INF = 10 ** 9
+    ml = {n: INF for n in by_lhs}
+    changed = True
+    while changed:
+        changed = False
+        for n, rs in by_lhs.items():
+            for r in rs:
+                v = sum(1 if k == "t" else ml.get(x, INF) for k, x in r)
+                if v < ml[n]:
+                    ml[n] = v
+                    changed = True
+    best = {n: min(rs, key=lambda r: sum(1 if k == "t" else ml.get(x, INF) for k, x in r)) for n, rs in by_lhs.items()}
+    out, stack, steps = [], [("n", G["start"])], 0
+    pending = ml[G["start"]]            # least number of tokens the stack still has to produce
+    while stack:
+        steps += 1
+        if steps > 20 * limit or len(out) > limit:
+            return None
+        k, x = stack.pop()
+        if k == "t":
+            out.append(x)
+            pending -= 1
+            continue
+        pending -= ml[x]
+        if len(out) + pending < target:
+            grow = [r for r in by_lhs[x] if any(kk == "n" for kk, _ in r)]
+            r = rng.choice(grow) if grow and rng.random() < 0.9 else rng.choice(by_lhs[x])
+        else:
+            r = best[x]
+        pending += sum(1 if kk == "t" else ml[xx] for kk, xx in r)
+        for sym in reversed(r):
+            stack.append(sym)
+    return out if len(out) >= 3 else None
+
+
 def mutate(kinds, terminals, rng):
     """A near-miss: one deletion, insertion or replacement."""
     k = list(kinds)
